@@ -88,6 +88,7 @@ type Machine struct {
 	knownRegion   func(fn, kind, label string) (string, bool)
 	regionEnv     *Env
 	inCanary      bool
+	concord       bool
 	usedContracts map[string]bool
 	// which properties / kinds to emit safety obligations for
 	safetyProps []string
